@@ -146,8 +146,46 @@ def tagged_json(txt, marker):
     return out
 
 
-def validate(module, cfg, trace, pid, tag='trace', timeout=3000):
-    """Trace validation: TLC replays the ndjson trace through <module>; returns violations / drift."""
+def validate(module, cfg, trace, pid, tag='trace', timeout=3000, chunk_lines=None):
+    """Trace validation: TLC replays the ndjson trace through <module>; returns violations / drift.
+    chunk_lines: for traces whose lines are independent of each other (no behaviour state carried from line to line), a very
+    long trace is validated in pieces of that many lines (TLC holds the whole deserialised trace in memory)."""
+    if chunk_lines:
+        n = sum(1 for _ in open(trace))
+        if n > chunk_lines:
+            viols, drifts, total = [], [], None
+            k = 0
+            with open(trace) as f:
+                while True:
+                    part = f'{trace}.part'
+                    cnt = 0
+                    with open(part, 'w') as g:
+                        for line in f:
+                            g.write(line)
+                            cnt += 1
+                            if cnt >= chunk_lines:
+                                break
+                    if cnt == 0:
+                        break
+                    v, d, s = validate(module, cfg, part, pid, tag=tag, timeout=timeout)
+                    for x in v:
+                        x['line'] += k * chunk_lines
+                    for x in d:
+                        if isinstance(x, dict) and 'line' in x:
+                            x['line'] += k * chunk_lines
+                    viols += v
+                    drifts += d
+                    if total is None:
+                        total = dict(s)
+                    else:
+                        total['lines'] += s['lines']
+                        total['wall_s'] = round(total['wall_s'] + s['wall_s'], 2)
+                    k += 1
+                    if cnt < chunk_lines:
+                        break
+            os.remove(f'{trace}.part')
+            total['chunks'] = k
+            return viols, drifts, total
     txt, s = tlc(module, cfg, tag, pid, workers=1, env={'TRACE': trace}, timeout=timeout, dfs=True, heap='12g')
     viols = [{'line': v.get('line'), 'b': v.get('b'), 'conjuncts': sorted(v.get('failed', [])), **{k: x for k, x in v.items() if k not in ('line', 'b', 'failed')}}
              for v in tagged_json(txt, 'VIOL')]
@@ -174,6 +212,23 @@ def known_findings(pid):
         return [k for k in json.load(open(ROOT + '/known_findings.json')) if k['property'] == pid]
     except FileNotFoundError:
         return []
+
+
+class LazyLines:
+    """lines[i] of a (possibly huge) file without holding it in memory: index of line offsets, built on first use."""
+
+    def __init__(self, path):
+        self.path, self.idx = path, None
+
+    def __getitem__(self, i):
+        if self.idx is None:
+            self.idx = [0]
+            with open(self.path, 'rb') as f:
+                for line in f:
+                    self.idx.append(self.idx[-1] + len(line))
+        with open(self.path, 'rb') as f:
+            f.seek(self.idx[i])
+            return f.readline().decode()
 
 
 def read_lines(path):
